@@ -332,4 +332,59 @@ example : admissionAtomic [(0, "e.admissionMu.Lock"), (0, "e.closed.Load"), (1, 
     (0, "asyncSendShardIndex"), (0, "e.reserve"), (0, "e.reserveShard"), (1, "e.consume"), (0, "e.admitted.Add")] = false := by decide
 example : failureExitsGiveBack [(0, "e.reserve"), (0, "e.reserveShard"), (1, "e.consume"), (1, "e.completeAdmission")] = false := by decide
 
+/-! ## Part 5 — completeness direction (partial) -/
+
+/-- the part of the model/acceptor simulation relation that the ack clauses need -/
+structure SimAck (s : Nat) (st : St) (a : Acc) : Prop where
+  hsent : a.sent = (st.sess s).sent
+  hacnt : a.acnt = (st.sess s).acked.length
+  hclosed : a.closed = (st.sess s).closed
+  hdrain : a.drainOk = true → st.drained = true
+
+/-- Completeness, ack clauses (partial: the simulation relation `SimAck` is a hypothesis, and
+    the dispatch bookkeeping `hcnt`/`kinds` is assumed to be ahead — what is still missing for
+    the full "every LTS trace is accepted" statement): whenever the LTS writes a SENDACK, the
+    acknowledged client seq is exactly the next un-acknowledged SEND of that session, the
+    session is open and the drain has not completed — so the acceptor's `ack-after-close`,
+    `ack-after-drain-returned`, `ack-duplicate`, `ack-out-of-order` and `ack-unknown-seq`
+    clauses cannot fire on a run of the model, and the relation is re-established. -/
+theorem c28_lts_ack_accepted_partial (h : Reach shardOf st) {s : Nat} (hs : step shardOf st (.ack s) = some st')
+    (a : Acc) (hsim : SimAck s st a) :
+    ∃ n, (st'.sess s).acked = (st.sess s).acked ++ [n] ∧ a.sent[a.acnt]? = some n ∧ a.closed = false ∧ a.drainOk = false ∧
+      SimAck s st' { a with acnt := a.acnt + 1 } := by
+  have hreach' : Reach shardOf st' := Reach.step _ h hs
+  have hpre := (c28_ack_once_in_order hreach' s)
+  simp only [step] at hs
+  by_cases hc : (st.sess s).closed = true
+  · simp [hc] at hs
+  · simp only [hc, Bool.false_eq_true, if_false] at hs
+    cases hpf : popFirst s st.inflight with
+    | none => simp [hpf] at hs
+    | some pr =>
+      obtain ⟨n, rest⟩ := pr
+      simp only [hpf] at hs
+      cases hs
+      have hspec := popFirst_spec s _ _ _ hpf
+      refine ⟨n, by simp, ?_, ?_, ?_, ?_⟩
+      · have hp : ((st.sess s).acked ++ [n]) <+: (st.sess s).sent := by
+          have := hpre.1.trans hpre.2.1
+          simpa using this
+        obtain ⟨t, ht⟩ := hp
+        rw [hsim.hsent, hsim.hacnt, ← ht]
+        simp
+      · rw [hsim.hclosed]; simpa using hc
+      · cases hd : a.drainOk with
+        | false => rfl
+        | true =>
+          have := (c28_drain_fence h).2 (hsim.hdrain hd)
+          rw [this.2.2.1] at hpf
+          simp [popFirst] at hpf
+      · constructor
+        · simpa using hsim.hsent
+        · simp [hsim.hacnt]
+        · simp only [upd_same]; first | exact hsim.hclosed | (rw [hsim.hclosed]; simpa using hc)
+        · intro hd; exact hsim.hdrain hd
+
+example : SimAck 1 {} {} := ⟨rfl, rfl, rfl, fun h => by cases h⟩
+
 end WK.C28
